@@ -18,7 +18,7 @@ class C16(Spec):
     rule = ("CC: Cache-Control built through the API from lists of 0-6 directives (8 plain, 4 timed with delta 0, 1, 59, "
             "2^31, 2^63-1 and random), written and parsed back; CL: Content-Length 0, 1, 2^32-1, 2^32, 2^32+1, 2^63, 2^64-1 "
             "and random; EN/CN/EX: every enum value of Content-/Transfer-Encoding, Connection, Expect; HO: Host with "
-            "names, dotted quads and bracketed IPv6 with ports 1, 79, 80, 81, 65535; DT: Date built from whole seconds (ends of 1678..2261, epoch, first/last day of every month of 18 years incl. 1900/2000/2100, random seconds), written, parsed, written again, compared with DateModel; SV: single- and multi-token Server; T: "
+            "names, dotted quads and bracketed IPv6 with ports 1, 79, 80, 81, 65535; DT: Date built from whole seconds (ends of 1678..2261, epoch, first/last day of every month of 18 years incl. 1900/2000/2100, random seconds), written, parsed by the header and out of a request by the request parser (exact-size buffer), written again, compared with DateModel; SV: single- and multi-token Server; T: "
             "Content-Type built through the API with every quality 0..100 (written, parsed by the header and by the request parser, written again) and Accept texts with every quality; text-level double round trip (parse, write, parse, write) for every registered header incl. Date, Content-Type, "
             "Accept values and arbitrary strings; LT: requests in which registered headers (Host, Cache-Control, User-Agent, Location, Connection, Server, Authorization, Access-Control-Allow-Origin) occur one to three times under different capitalisations with different values, every name looked up in the typed collection (tryGet) and written back: the first occurrence; L: requests whose header names (registered and unknown, duplicates in "
             "other capitalisation) are looked up under random capitalisations. non-trivial = value that is not the empty "
@@ -204,7 +204,9 @@ class C16(Spec):
             if o[2] != t[1]:
                 return "%s %s written %r parses back as %s" % (t[0], t[1], pv.unhex(o[1]), o[2])
         elif t[0] == "DT":
-            if len(o) != 4 or o[2] != t[1]:
+            if len(o) == 5 and o[4] != "via=" + t[1]:
+                return "Date of second %s written %r: the request parser reads it as %s" % (t[1], pv.unhex(o[1]), o[4])
+            if len(o) != 5 or o[2] != t[1]:
                 return "Date of second %s written %r parses back as %s" % (t[1], pv.unhex(o[1]) if len(o) > 1 else b"", o[2:] )
             if o[3] != o[1]:
                 return "Date written twice gives different text: %r vs %r" % (pv.unhex(o[1]), pv.unhex(o[3]))
